@@ -72,7 +72,7 @@ def generate(rng, tier, idx):
     sc['intruder'] = rng.random() < 0.4
     if rng.random() < 0.3:
         from ..author import prelude_spec
-        sc['prelude'] = {'world': prelude_spec(w, rng), 'seed': rng.randrange(1 << 30)}
+        sc['prelude'] = {'world': prelude_spec(w, rng), 'seed': rng.randrange(1 << 30), 'leftover_gz': rng.random() < 0.4}
     return sc
 
 
@@ -218,7 +218,7 @@ def _execute(sc, sim, out):
     # ---- stage 1: convolve
     if sc.get('prelude'):
         pipe.run_prelude(sim, sc, out, d=sim.path('pkg'))
-    d = W.write(sim.path('pkg'))
+    d = W.write(sim.path('pkg'), keep_convolved=bool(sc.get('prelude') and sc['prelude'].get('leftover_gz')))
     kw = {}
     if fmt == 2:
         kw['memmap'] = sc['conv_memmap']
